@@ -126,6 +126,59 @@ def case_condensed_vs_explicit(ctx, family, kind):
     ctx.equal("condensed_state_p_is_bulk_times_J_minus_one", np.asarray(cond.results.state.p).reshape(-1), np.array([ps], dtype=object if ctx.sym else float), **tol)
 
 
+def case_condensed_vs_threefield(ctx, family, params=2):
+    """the condensed body with the isochoric NeoHooke(mu) and bulk vs the explicit ThreeFieldVariation(NeoHooke(mu, bulk)) formulation
+    (W evaluated at Fbar = (J/det F)^(1/3) F, plus p (det F - J)) at the state p* = bulk (J* - 1), J* = v / V: for an isochoric
+    energy both formulations have the same u-force vector and the explicit p- and J-equations vanish there"""
+    m = tiny_mesh(family)
+    R = {"quad4": fem.RegionQuad, "hex8": fem.RegionHexahedron}[family]
+    region = R(m)
+    if m.dim == 2:
+        fu = fem.FieldContainer([fem.FieldPlaneStrain(region, dim=2)])
+        fm = fem.FieldsMixed(region, n=3, planestrain=True)
+    else:
+        fu = fem.FieldContainer([fem.Field(region, dim=3)])
+        fm = fem.FieldsMixed(region, n=3)
+    # a two-parameter family of inhomogeneous displacement states u = s U1 + t U2 (fixed rational patterns): all eight nodal
+    # unknowns symbolic puts the cube roots of four different det F_q beyond the solver budget
+    n = fu[0].values.size
+    s_, t_ = (ctx.var("s", -0.2, 0.2) if params == 2 else 0.125), ctx.var("t", -0.2, 0.2)
+    from fractions import Fraction as Fr
+
+    U1 = [Fr(k, 8) for k in (1, -2, 3, 1, -1, 2, 0, 3, 2, -3, 1, 2, -2, 1, 3, -1, 0, 2, 1, -2, 3, 0, -1, 2)][:n]
+    U2 = [Fr(k, 8) for k in (2, 1, -1, 3, 0, -2, 1, 1, -3, 2, 0, 1, 3, -1, 2, 0, 1, -2, 2, 3, -1, 1, 0, -3)][:n]
+    if ctx.sym:
+        x = np.array([(s_ if params == 2 else Fr(1, 8)) * a + t_ * b for a, b in zip(U1, U2)], dtype=object)
+    else:
+        x = np.array([s_ * float(a) + t_ * float(b) for a, b in zip(U1, U2)])
+    install(ctx, fu, x)
+    mu = ctx.var("mu", 0.5, 2)
+    bulk = ctx.var("bulk", 1, 50)
+    cond = fem.SolidBodyNearlyIncompressible(fem.NeoHooke(mu=mu), fu, bulk=bulk)
+    cond.assemble.vector(fu)
+    rc = dense(ctx, cond.assemble.vector(fu)).reshape(-1)
+    F = np.asarray(fu.extract()[0])
+    dV = np.asarray(region.dV)
+    from checks.c17_tensor import det_leibniz
+
+    v = 0
+    for q_ in range(dV.shape[0]):
+        v = v + det_leibniz(F[:, :, q_, 0]) * dV[q_, 0]
+    Js = v / dV.sum()
+    ps = bulk * (Js - 1)
+    fm[0].values = np.asarray(fu[0].values)
+    fm[1].values = np.array([[ps]], dtype=object if ctx.sym else float)
+    fm[2].values = np.array([[Js]], dtype=object if ctx.sym else float)
+    expl = fem.SolidBody(fem.ThreeFieldVariation(fem.NeoHooke(mu=mu, bulk=bulk)), fm)
+    re = dense(ctx, expl.assemble.vector(fm)).reshape(-1)
+    nu = fu[0].values.size
+    tol = dict(tol=1e-8, box={"atom:root": (0.5, 2.0)})
+    ctx.equal("condensed_force_vector_equals_three_field_u_block", rc, re[:nu], **tol)
+    ctx.equal("three_field_p_equation_is_satisfied_at_the_condensed_state", re[nu : nu + 1], np.zeros(1, dtype=int), **tol)
+    if ctx.tier == "thorough":
+        ctx.equal("three_field_J_equation_is_satisfied_at_the_condensed_state", re[nu + 1 :], np.zeros(1, dtype=int), **tol)
+
+
 def case_uniform(ctx, dim):
     L = ctx.array("L", (dim,), 0.5, 2)
     o = ctx.array("o", (dim,), -1, 1)
@@ -165,8 +218,10 @@ def cases(tier):
         ("axisymmetric_energy", case_axisymmetric_energy, {}),
         ("condensed_vs_explicit", case_condensed_vs_explicit, {"family": "quad4", "kind": "PlaneStrain"}),
         ("uniform", case_uniform, {"dim": 2, "max_paths": 8}),
+        ("condensed_vs_threefield", case_condensed_vs_threefield, {"family": "quad4", "params": 1}),
     ]
     if tier == "thorough":
+        out.append(("condensed_vs_threefield", case_condensed_vs_threefield, {"family": "quad4", "params": 2}))
         out.append(("condensed_vs_explicit", case_condensed_vs_explicit, {"family": "hex8", "kind": "Field"}))
         out.append(("uniform", case_uniform, {"dim": 3, "max_paths": 8}))
     return out
